@@ -2,7 +2,8 @@
    Model: Low/Into.v (cascade.low.into.node2task / graph2job, views.param_source),
    Low/Runner.v (executor.runner.runner.run with Memory.handle / provide,
    controller.notify.is_last_output_of, the output names and placeholders of fluent.Node),
-   Graph/GStore.v + Graph/Export.v (Graph.nodes, serialise), Util/StrOrd.v (byte-wise sort).
+   Graph/GStore.v + Graph/Export.v (Graph.nodes, serialise), Util/StrOrd.v (byte-wise sort),
+   Low/FluentBuild.v (fluent Payload / Node construction over a heap of shared list objects).
    The model is of the fix-carrying worktree (bd210aa exhaustion check, 40ef9de repeated
    placeholder, 7328005 zero-padded fluent output names, 62ec2b5 single-output generators).
    Every theorem holds for ALL callables F, opaque objects D and call behaviours
@@ -10,7 +11,8 @@
    all graphs, arities, argument orders and numbers of outputs. *)
 From Coq Require Import List String Bool Arith NArith Lia.
 From EKW Require Import Graph.GStore Graph.Export Util.StrOrd Low.Into Low.Runner
-  Low.RunnerOrdProofs Low.RunnerProofs Low.IntoProofs Low.RunnerArgsProofs Low.IntoSourceProofs.
+  Low.RunnerOrdProofs Low.RunnerProofs Low.IntoProofs Low.RunnerArgsProofs Low.IntoSourceProofs
+  Low.FluentBuild Low.FluentBuildProofs.
 From EKW Require Low.RunnerCheck.
 Import ListNotations.
 Open Scope string_scope.
@@ -179,6 +181,41 @@ Theorem C10_single_output_value :
     run_task call tid t src publish m = ([((tid, k), v, in_publish (tid, k) publish)], Ok tt).
 Proof. exact run_task_single. Qed.
 
+(* (9) Fluent: what a node declares is what its author declared.  For ANY program of
+   Payload(...), Node(payload or callable, inputs, num_outputs) and node.copy() calls -- one
+   Payload object handed to any number of nodes with any numbers of inputs in any order, as
+   Action.map, a batched reduce and a user re-using a Payload do -- at the end every Payload
+   the caller holds still reads as declared, and every node's payload tuple is (func, the
+   declared args ++ the placeholders of ITS OWN inputs the declaration does not name, kwargs).
+   The list objects are modelled with their aliasing (Payload.args is a reference, append is in
+   place, to_tuple shares the list). *)
+Theorem C10_fluent_nodes_as_declared :
+  forall F D (ops : list (op F D)) (st : state F D),
+    run ops init = Ok st ->
+    map (payload_view (s_heap st)) (s_payloads st) = decls ops /\
+    forall nd, In nd (s_nodes st) ->
+      exists f a k, src_decl (decls ops) (n_src nd) = Some (f, a, k) /\
+        node_view (s_heap st) nd = ((f, fluent_args a (n_nin nd), k), n_nin nd, n_nout nd).
+Proof. exact nodes_as_declared. Qed.
+
+(* (9') frame: running more of the program never changes a list object, a Payload or a node
+   that existed before *)
+Theorem C10_fluent_build_frame :
+  forall F D (ops : list (op F D)) (st st' : state F D),
+    run ops st = Ok st' ->
+    ext D (s_heap st) (s_heap st') /\
+    (exists ps, s_payloads st' = s_payloads st ++ ps) /\ (exists ns, s_nodes st' = s_nodes st ++ ns).
+Proof. exact run_frame. Qed.
+
+(* (10) the arguments of a fluent node with n inputs: the declared arguments keep their
+   positions, only placeholders of this node's inputs that the declaration does not name are
+   appended, and every input is named at some position (so lowering finds an edge for it) *)
+Theorem C10_fluent_args_shape :
+  forall D (args : list (pval D)) n,
+    (exists suf, fluent_args args n = args ++ suf /\ Forall (appended D args 0 n) suf) /\
+    (forall x, x < n -> positions_from 0 (input_name x) (fluent_args args n) <> []).
+Proof. intros D args n. split; [apply fluent_args_prefix|intros x Hx; apply fluent_args_positions, Hx]. Qed.
+
 (* ------------------------------------------------------------------ non-vacuity *)
 Import EKW.Low.RunnerCheck.
 
@@ -283,6 +320,47 @@ Example C10_last_output_consistent_nonvacuous :
   is_last_output_of ("s", "11") [("s", ex_s)] = Ok true /\ is_last_output_of ("s", "09") [("s", ex_s)] = Ok false.
 Proof. repeat split; vm_compute; reflexivity. Qed.
 
+(* one Payload object (args [7; "input1"]) used for a node with 3 inputs, then 1 input, then 2
+   inputs, then the first node copied; a second Payload built with the same arguments *)
+Definition ex_prog : list (op N obj) :=
+  [OPayload 0%N [PObj (OLit 7); PStr "input1"] [("k", PNone)]; ONode 0 3 1; ONode 0 1 1;
+   OPayload 1%N [PObj (OLit 7); PStr "input1"] []; ONode 0 2 12; OCopyNode 0; ONodeFunc 2%N [] [] 2 1].
+
+Example C10_fluent_nodes_as_declared_nonvacuous :
+  exists st, run ex_prog init = Ok st /\
+    map (fun nd => deref (s_heap st) (n_args nd)) (s_nodes st) =
+      [[PObj (OLit 7); PStr "input1"; PStr "input0"; PStr "input2"];
+       [PObj (OLit 7); PStr "input1"; PStr "input0"];
+       [PObj (OLit 7); PStr "input1"; PStr "input0"];
+       [PObj (OLit 7); PStr "input1"; PStr "input0"; PStr "input2"];
+       [PStr "input0"; PStr "input1"]] /\
+    map (payload_view (s_heap st)) (s_payloads st) =
+      [(0%N, [PObj (OLit 7); PStr "input1"], [("k", PNone)]); (1%N, [PObj (OLit 7); PStr "input1"], [])].
+Proof. eexists. split; [vm_compute; reflexivity|split; vm_compute; reflexivity]. Qed.
+
+(* the model can tell: were Payload.copy a reference-sharing copy, the placeholders of the 3-input
+   node would show up in the 1-input and 2-input nodes and in the caller's Payload *)
+Example C10_fluent_sharing_copy_would_leak :
+  exists st, run_with pcopy_shallow ex_prog init = Ok st /\
+    map (fun nd => deref (s_heap st) (n_args nd)) (firstn 3 (s_nodes st)) =
+      [[PObj (OLit 7); PStr "input1"; PStr "input0"; PStr "input2"];
+       [PObj (OLit 7); PStr "input1"; PStr "input0"; PStr "input2"];
+       [PObj (OLit 7); PStr "input1"; PStr "input0"; PStr "input2"]] /\
+    nth_error (map (payload_view (s_heap st)) (s_payloads st)) 0 =
+      Some (0%N, [PObj (OLit 7); PStr "input1"; PStr "input0"; PStr "input2"], [("k", PNone)]).
+Proof. eexists. split; [vm_compute; reflexivity|split; vm_compute; reflexivity]. Qed.
+
+Example C10_fluent_build_frame_nonvacuous :
+  exists st st', run (firstn 2 ex_prog) init = Ok st /\ run (skipn 2 ex_prog) st = Ok st' /\
+    List.length (s_heap st) = 2 /\ List.length (s_heap st') = 7 /\ deref (s_heap st') 0 = [PObj (OLit 7); PStr "input1"].
+Proof. eexists. eexists. split; [vm_compute; reflexivity|split; [vm_compute; reflexivity|repeat split]]. Qed.
+
+Example C10_fluent_args_shape_nonvacuous :
+  fluent_args [PStr "input2"; PObj (OLit 1); PStr "input0"] 12 =
+    [PStr "input2"; PObj (OLit 1); PStr "input0"] ++ map (fun x => PStr (input_name x)) [1; 3; 4; 5; 6; 7; 8; 9; 10; 11] /\
+  positions_from 0 (input_name 11) (fluent_args [PStr "input2"; PObj (OLit 1); PStr "input0"] 12) = [12].
+Proof. split; vm_compute; reflexivity. Qed.
+
 Print Assumptions C10_lowering_shape.
 Print Assumptions C10_edge_per_placeholder.
 Print Assumptions C10_one_edge_per_input.
@@ -295,3 +373,6 @@ Print Assumptions C10_count_mismatch_fails.
 Print Assumptions C10_run_ok_iff_counts_agree.
 Print Assumptions C10_last_output_consistent.
 Print Assumptions C10_single_output_value.
+Print Assumptions C10_fluent_nodes_as_declared.
+Print Assumptions C10_fluent_build_frame.
+Print Assumptions C10_fluent_args_shape.
